@@ -732,7 +732,10 @@ top:
 		//vv("in LexerBuiltinOperator, first='%s', atom='%s', lexer.prevrune='%c'", first, atom, lexer.prevrune)
 		// are we a negative number -1 or -.1 rather than  ->, --, -= operator?
 		if lexer.prevrune == '-' && canStartSignedNumberAfter(lexer.preBuiltinRune) {
-			if FloatRegex.MatchString(atom) || DecimalRegex.MatchString(atom) {
+			// "-." starts a negative fraction such as -.5, which FloatRegex
+			// accepts; it used to be split into the symbol - and .5, so
+			// the sign was silently lost.
+			if FloatRegex.MatchString(atom) || DecimalRegex.MatchString(atom) || atom == "-." {
 				//Q("'%s' is the beginning of a negative number", atom)
 				_, err := lexer.buffer.WriteString(atom)
 				if err != nil {
